@@ -3,6 +3,7 @@ mod bddprops;
 mod formula;
 mod parse;
 mod cli;
+mod env;
 mod watchdog;
 
 use std::io::Write;
@@ -20,9 +21,16 @@ fn main() {
     let mut rng = Rng::new(seed);
     let mut st = Stats::new();
     let stdout = std::io::stdout();
-    let mut out = std::io::BufWriter::with_capacity(1 << 20, stdout.lock());
+    // formula- and tool-level generators can meet an evaluation that does not return: their
+    // output is flushed line by line so that everything before the hang is still checked
+    let line_buffered = matches!(prop, "C01" | "C05" | "C06" | "C09" | "C10" | "C11" | "C12" | "C14" | "C15" | "C16" | "C17" | "C18");
+    let mut out: Box<dyn Write> = if line_buffered {
+        Box::new(std::io::LineWriter::new(stdout.lock()))
+    } else {
+        Box::new(std::io::BufWriter::with_capacity(1 << 20, stdout.lock()))
+    };
     // panics are data for several properties; keep the default hook quiet
-    std::panic::set_hook(Box::new(|_| {}));
+    if std::env::var("VERIF_PANIC_VERBOSE").is_err() { std::panic::set_hook(Box::new(|_| {})); }
     watchdog::start(60);
     match prop {
         "C01" => formula::c01(&mut out, tier, &mut rng, &mut st),
@@ -32,6 +40,7 @@ fn main() {
         "C12" => parse::c12(&mut out, tier, &mut rng, &mut st),
         "C10" => cli::c10(&mut out, tier, &mut rng, &mut st),
         "C11" => cli::c11(&mut out, tier, &mut rng, &mut st),
+        "C13" => env::c13(&mut out, tier, &mut rng, &mut st),
         "C02" => bddprops::c02(&mut out, tier, &mut rng, &mut st),
         "C03" => bddprops::c03(&mut out, tier, &mut rng, &mut st),
         "C04" => bddprops::c04(&mut out, tier, &mut rng, &mut st),
